@@ -223,6 +223,48 @@ func lhsWrites(info *types.Info, lhs ast.Expr) (direct *types.Var, directKind st
 	return
 }
 
+// freshLocalStruct: id names a local variable of struct type (held by value, not a pointer) that the
+// function defines itself with a composite literal or a plain `var` declaration.
+func freshLocalStruct(info *types.Info, body ast.Node, id *ast.Ident) bool {
+	v, ok := info.Uses[id].(*types.Var)
+	if !ok || v.IsField() || body == nil {
+		return false
+	}
+	if _, isStruct := v.Type().Underlying().(*types.Struct); !isStruct {
+		return false
+	}
+	fresh := false
+	ast.Inspect(body, func(n ast.Node) bool {
+		switch x := n.(type) {
+		case *ast.AssignStmt:
+			if x.Tok != token.DEFINE || len(x.Lhs) != len(x.Rhs) {
+				return true
+			}
+			for i, l := range x.Lhs {
+				if lid, ok := l.(*ast.Ident); ok && info.Defs[lid] == types.Object(v) {
+					if _, isLit := ast.Unparen(x.Rhs[i]).(*ast.CompositeLit); isLit {
+						fresh = true
+					}
+				}
+			}
+		case *ast.ValueSpec:
+			for i, nm := range x.Names {
+				if info.Defs[nm] == types.Object(v) {
+					if len(x.Values) == 0 {
+						fresh = true
+					} else if i < len(x.Values) {
+						if _, isLit := ast.Unparen(x.Values[i]).(*ast.CompositeLit); isLit {
+							fresh = true
+						}
+					}
+				}
+			}
+		}
+		return true
+	})
+	return fresh
+}
+
 // BuildCensus records every field store in the given packages.
 func (c *Ctx) BuildCensus(keep func(string) bool) *Census {
 	key := "census"
@@ -232,6 +274,13 @@ func (c *Ctx) BuildCensus(keep func(string) bool) *Census {
 		var litStack []*ast.FuncLit
 		var visit func(n ast.Node) bool
 		record := func(lhs ast.Expr, rhs ast.Expr, node ast.Node, op string) {
+			// `frame := CallFrame{…}; frame.HeightLogical = h` fills in a value this function is still
+			// building: it is the same act as a key in the composite literal, which is not a store either
+			if se, ok := ast.Unparen(lhs).(*ast.SelectorExpr); ok {
+				if id, ok := ast.Unparen(se.X).(*ast.Ident); ok && freshLocalStruct(info, u.Decl.Body, id) {
+					return
+				}
+			}
 			direct, kind, through := lhsWrites(info, lhs)
 			var lit *ast.FuncLit
 			if len(litStack) > 0 {
